@@ -267,3 +267,4 @@ Proof.
     assert (Fq : d64_finite q = true) by (cbn [forallb] in Fr; apply andb_true_iff in Fr; tauto).
     apply d64_finite_not_nan in Fp, Fq. rewrite (d64_ltb_leb q p Fq Fp), Hpq. reflexivity.
 Qed.
+
